@@ -35,3 +35,12 @@ func (m *LoadBalancedManager) VerifBalancer(endpointID string) ([]Upstream, int,
 	copy(ups, lb.upstreams)
 	return ups, lb.nextIndex, true
 }
+
+// VerifNodeID returns the ID of the node a forwarding upstream points at
+// ("" if the upstream is not a NodeUpstream).
+func VerifNodeID(u Upstream) string {
+	if n, ok := u.(*NodeUpstream); ok && n.node != nil {
+		return n.node.ID
+	}
+	return ""
+}
